@@ -15,7 +15,7 @@ typedef struct { int wide; size_t len; unsigned long code; int dv; int delimv; i
 static const uint32_t AL[4] = {',', ';', 'a', 'b'};
 static char g_wit[900]; static int g_samples;
 
-static const char *dname(int v) { static const char *n[] = {"delim=','", "delim=',;'", "delim=empty", "delim=len16", "delim=len17", "delim=alternating", "delim=none-present"}; return n[v]; }
+static const char *dname(int v) { static const char *n[] = {"delim=','", "delim=',;'", "delim=empty", "delim=len16", "delim=len17", "delim=alternating", "delim=none-present", "delim=high-bit"}; return n[v]; }
 static void wit(const tscn *s, long idx, const char *obs) {
     char str[64] = ""; unsigned long c = s->code; for (size_t i = 0; i < s->len; i++) { sb_add(str, sizeof str, "%c", (char)AL[c % 4]); c /= 4; }
     snprintf(g_wit, sizeof g_wit, "{\"harness\":\"tok\",\"cfg\":\"%s\",\"fn\":\"%s\",\"idx\":%ld,\"seed\":%llu,\"string\":\"%s\",\"len\":%zu,\"dmaxvariant\":%d,\"%s\":1,\"bos\":%d,\"place\":%d,\"obs\":\"%s\",\"replay\":\"tok --cfg %s --idx %ld --seed %llu --tier %s\"}",
@@ -55,7 +55,9 @@ static void run_seq(const tscn *s, long idx) {
     case 4: for (int i = 0; i < 16; i++) d1[n1++] = 'K' + i; d1[n1++] = ','; break;          /* 17: longer than STRTOK_DELIM_MAX_LEN */
     case 5: d1[n1++] = ','; d2[n2++] = ';'; break;
     case 6: d1[n1++] = 'x'; d1[n1++] = 'y'; break;
+    case 7: d1[n1++] = w ? 0x20AC : 0xE9; d1[n1++] = ','; break;                             /* a delimiter above 0x7F (signed char / wide) */
     }
+    if (s->delimv == 7) for (size_t i = 0; i < dmax0; i++) if (i < len && str[i] == ';') { str[i] = w ? 0x20AC : 0xE9; ref[i] = str[i]; sel(buf, i, w, str[i]); }
     if (s->delimv != 5) { memcpy(d2, d1, sizeof d1); n2 = n1; }
     uint8_t *dl1 = place_end(1, (n1 + 1) * ew), *dl2 = place_end(3, (n2 + 1) * ew);
     for (size_t i = 0; i < n1; i++) sel(dl1, i, w, d1[i]); sel(dl1, n1, w, 0);
@@ -144,7 +146,7 @@ static void run_seq(const tscn *s, long idx) {
 static void gen(void) {
     long idx = 0; tscn s; size_t maxlen = g_tier ? 7 : 5;
     for (int w = 0; w < 2; w++) for (size_t len = 0; len <= maxlen; len++) { unsigned long tot = 1; for (size_t i = 0; i < len; i++) tot *= 4;
-        for (unsigned long code = 0; code < tot; code++) for (int dv = 0; dv < 5; dv++) for (int delimv = 0; delimv < 7; delimv++) {
+        for (unsigned long code = 0; code < tot; code++) for (int dv = 0; dv < 5; dv++) for (int delimv = 0; delimv < 8; delimv++) {
             if (len >= 6 && delimv >= 2 && delimv != 5 && (code % 7)) continue;
             long my = idx++; if (g_only_idx >= 0 ? my != g_only_idx : (my % g_nw != g_wid || my < g_skip_below)) continue;
             memset(&s, 0, sizeof s); s.wide = w; s.len = len; s.code = code; s.dv = dv; s.delimv = delimv; s.bos = (int)((code + dv) & 1); s.place = (int)((code >> 1) & 1);
